@@ -153,11 +153,17 @@ def check(case):
         def passthrough(*args, **kwargs):
             return inner(*args, **kwargs)
 
-        plain = passthrough
+        @functools.wraps(inner)
+        def retrying(*args, retries=1, **kwargs):
+            # a helper decorator whose wrapper takes an option of its own
+            return inner(*args, **kwargs)
+
+        plain = retrying if case["inner_decorator"] == 2 else passthrough
+    inner_names = [p[0] for p in params]
     names = [p[0] for p in params]
     if case.get("inner_decorator"):
         # what Python binds for the function log_call actually decorates: (*args, **kwargs)
-        names = ["args", "kwargs"]
+        names = ["args", "kwargs"] if case["inner_decorator"] != 2 else ["args", "retries", "kwargs"]
     deco = case["deco"]
     include_args = deco.get("include_args")
     if case.get("inner_decorator"):
@@ -207,9 +213,11 @@ def check(case):
     info = {"excluded_f4": counter[0], "calls": 0, "bound": 0, "unbindable": 0, "uses_defaults": False, "invalid_include_args": False}
     saved = Logger._destinations
     try:
-        for call in case["calls"]:
+        for call_index, call in enumerate(case["calls"]):
             args = list(call["args"])
             kwargs = dict(call["kwargs"])
+            if case.get("inner_decorator") == 2 and call_index % 2 == 0 and "retries" not in inner_names:
+                kwargs["retries"] = 2 + call_index
             kwargs = dict((names[k % len(names)] if isinstance(k, int) and names else str(k), v) for k, v in kwargs.items()) if False else kwargs
             full_args = ([inst] if method else []) + args
             # reference
@@ -307,6 +315,8 @@ def classify(case, info):
     labels = ["method" if case["method"] else "function", "body:" + case["body"], "form:" + case["deco"]["form"]]
     if case.get("inner_decorator"):
         labels.append("under-another-functools.wraps-decorator")
+        if case["inner_decorator"] == 2:
+            labels.append("inner-wrapper-has-its-own-keyword")
     if info.get("invalid_include_args"):
         return True, labels + ["invalid-include_args"]
     labels.append("kinds=%d" % info["kinds"])
@@ -346,8 +356,8 @@ def strategy():
         st.dictionaries(st.sampled_from(NAMES + ["zz"]), values(), max_size=3),
     )
     return st.builds(
-        lambda inner, method, body, deco, params, calls: {"inner_decorator": inner, "method": method, "body": body, "deco": deco, "params": params, "calls": calls},
-        st.sampled_from([False, False, False, True]),
+        lambda inner, method, body, deco, params, calls: {"inner_decorator": int(inner), "method": method, "body": body, "deco": deco, "params": params, "calls": calls},
+        st.sampled_from([0, 0, 0, 0, 1, 2]),
         st.booleans(),
         st.sampled_from(["sentinel", "locals", "locals", "raise"]),
         deco,
